@@ -186,7 +186,7 @@ pub fn run_c09_b(ctx: &Ctx) -> Outcome {
         let cluster = MockCluster::start(spec, cap.clone()).await;
         o.class(wname);
         let session = match connect(&cluster, |b| b.compression(client_comp)).await {
-            Ok(s) => s,
+            Ok(s) => Arc::new(s),
             Err(e) => {
                 // what the node saw is judged all the same (a session that cannot be built because its frames are malformed)
                 let seen = cluster.log().violations();
@@ -207,6 +207,9 @@ pub fn run_c09_b(ctx: &Ctx) -> Outcome {
                 return;
             }
         };
+        // a CachingSession over the same session, told to use cached result metadata: every EXECUTE it sends for a
+        // statement with result columns asks the node to skip the metadata - the first (cache miss) and all later ones
+        let caching = scylla::client::caching_session::CachingSessionBuilder::new_shared(session.clone()).use_cached_result_metadata(true).build();
         let lwt = session.prepare(T_LWT).await.unwrap();
         if lwt.is_confirmed_lwt() {
             o.class("statement-marked-LWT-by-the-node");
@@ -220,7 +223,7 @@ pub fn run_c09_b(ctx: &Ctx) -> Outcome {
         for _ in 0..n {
             let a = Ask {
                 op: next_op(),
-                api: *rng.pick(&["query_unpaged", "execute_unpaged", "batch", "query_single_page", "execute_single_page"]),
+                api: *rng.pick(&["query_unpaged", "execute_unpaged", "batch", "query_single_page", "execute_single_page", "caching_execute_single_page"]),
                 cl: *rng.pick(&[Consistency::Any, Consistency::One, Consistency::Two, Consistency::Three, Consistency::Quorum, Consistency::All, Consistency::LocalQuorum, Consistency::EachQuorum, Consistency::LocalOne]),
                 serial: *rng.pick(&[None, Some(SerialConsistency::Serial), Some(SerialConsistency::LocalSerial)]),
                 page_size: *rng.pick(&[1, 7, 5000, i32::MAX]),
@@ -265,6 +268,14 @@ pub fn run_c09_b(ctx: &Ctx) -> Outcome {
                     b.set_serial_consistency(a.serial);
                     b.set_timestamp(a.timestamp);
                     session.batch(&b, (vals.clone(), vals.clone())).await.map(|_| ()).map_err(|e| e.to_string())
+                }
+                "caching_execute_single_page" => {
+                    let mut st = Statement::new(T_SEL);
+                    st.set_consistency(a.cl);
+                    st.set_serial_consistency(a.serial);
+                    st.set_timestamp(a.timestamp);
+                    st.set_page_size(a.page_size);
+                    caching.execute_single_page(st, (a.op as i64,), scylla::response::PagingState::start()).await.map(|_| ()).map_err(|e| e.to_string())
                 }
                 "query_single_page" | "execute_single_page" => {
                     // first page, then the page after it with the paging state the node returned
@@ -325,6 +336,23 @@ pub fn run_c09_b(ctx: &Ctx) -> Outcome {
                             }
                         }
                         other => o.violation(format!("c09b:{}:request-kind", a.api), format!("op {} arrived as {other:?}", a.op), replay.clone()),
+                    }
+                }
+                "caching_execute_single_page" => {
+                    if frames.len() != 1 {
+                        o.violation("c09b:caching_execute_single_page:frame-count", format!("op {} produced {} request frames", a.op, frames.len()), replay.clone());
+                        continue;
+                    }
+                    match &*frames[0] {
+                        Request::Execute { params, .. } => {
+                            check_params(&mut o, &a, "the request", params, Some(a.page_size), None, &replay);
+                            if !params.skip_metadata {
+                                o.violation("c09b:caching_execute_single_page:skip-metadata-flag", format!("op {}: the CachingSession uses cached result metadata, but this EXECUTE does not carry the skip-metadata flag", a.op), replay.clone());
+                            } else {
+                                o.class("caching-session:skip-metadata-flag-on-the-wire");
+                            }
+                        }
+                        other => o.violation("c09b:caching_execute_single_page:request-kind", format!("op {} arrived as {other:?}", a.op), replay.clone()),
                     }
                 }
                 "batch" => {
@@ -400,7 +428,7 @@ pub fn run_c09_b(ctx: &Ctx) -> Outcome {
     for c in ["compression:none", "compression:lz4-negotiated", "compression:snappy-negotiated", "compression:lz4-asked-node-offers-snappy-only", "compression:snappy-asked-node-offers-none", "mixed-cluster:metadata-id-extension-on-one-node-only", "mixed-cluster:EXECUTE-frames-on-the-node-without-the-extension"] {
         o.require_class(c);
     }
-    for c in ["api:query_unpaged", "api:execute_unpaged", "api:batch", "api:query_single_page", "api:execute_single_page", "paging-state-returned-verbatim", "frame-re-sent-after-UNPREPARED", "statement-marked-LWT-by-the-node"] {
+    for c in ["api:query_unpaged", "api:execute_unpaged", "api:batch", "api:query_single_page", "api:execute_single_page", "api:caching_execute_single_page", "caching-session:skip-metadata-flag-on-the-wire", "paging-state-returned-verbatim", "frame-re-sent-after-UNPREPARED", "statement-marked-LWT-by-the-node"] {
         o.require_class(c);
     }
     o
